@@ -148,12 +148,12 @@ def run(prog, rep):
     rep.floor("C15.2", 8)
 
     # ---- C15.3 -----------------------------------------------------------------------------
-    fnode = u.fn("pp_hash_table_find_node")
+    fnode = u.fn("pp_hash_table_find_node", raw=True)
     cmpk = [n for (b, i, n) in fnode.nodes() if n["k"] == "bin" and n["op"] in ("==", "!=") and
             {x for x in (field_of(n["l"]), field_of(n["r"]))} & {"key"}]
     okf = len(cmpk) == 1 and cmpk[0]["op"] == "==" and not any(c.get("callee") for (b, i, c) in fnode.calls())
     rep.ob("C15.3", fnode, "find", okf, "the chain search compares keys by pointer identity and calls nothing" if okf else "the chain search does not compare node->key == key by identity", fnode.loc[0])
-    ins = u.fn("p_hash_table_insert")
+    ins = u.fn("p_hash_table_insert", raw=True)
     allocs = []
 
     def s1(st, b, i, stmt):
@@ -167,7 +167,7 @@ def run(prog, rep):
                                for (f, c) in allocs)
     rep.ob("C15.3", ins, "insert", oki, "a node is allocated only after the key was searched and not found; otherwise the value is overwritten in place" if oki else
            "insert allocates a node without the key having been searched and found absent (duplicate keys in one chain)", ins.loc[0])
-    lk = u.fn("p_hash_table_lookup")
+    lk = u.fn("p_hash_table_lookup", raw=True)
     marker = False
     for (b, i, r) in lk.returns():
         for n in walk(r, elsewhere=True):
@@ -176,7 +176,7 @@ def run(prog, rep):
             if cv(n) == -1 and (u.type_of(n) or {}).get("k") == "ptr":
                 marker = True
     rep.ob("C15.3", lk, "marker", marker, "lookup returns (ppointer) -1 for an absent key" if marker else "lookup's not-found marker is not (ppointer) -1", lk.loc[0])
-    rm = u.fn("p_hash_table_remove")
+    rm = u.fn("p_hash_table_remove", raw=True)
     okr, msg = True, ""
     frees = [(b, i, c) for (b, i, c) in rm.calls() if c.get("callee") == "p_free"]
     if len(frees) != 1:
